@@ -535,7 +535,7 @@ impl Engine {
                 m.push_str("labels: ");
                 for (t, l, a) in st.labels.iter().rev().take(48).rev() {
                     if *a != 0 {
-                        m.push_str(&format!("{}@t{}({}) ", l, t, a));
+                        m.push_str(&format!("{}@t{}({:x}) ", l, t, a));
                     } else {
                         m.push_str(&format!("{}@t{} ", l, t));
                     }
@@ -998,6 +998,9 @@ impl Hooks for Engine {
         }
         let mut st = Engine::lock(self);
         st.th[me].blocked = Some(Cond::Lock(addr));
+        if st.branching && st.accesses.len() < 200_000 {
+            st.accesses.push(Access { addr, tid: me as u8, write: true, site: 0x10c0 });
+        }
         self.resched(st, me);
     }
 
@@ -1026,6 +1029,9 @@ impl Hooks for Engine {
             notified: false,
             seq,
         });
+        if st.branching && st.accesses.len() < 200_000 {
+            st.accesses.push(Access { addr: cv, tid: me as u8, write: true, site: 0x10c2 });
+        }
         self.resched(st, me);
         let to = Engine::lock(self).th[me].timed_out;
         // re-acquire the mutex
@@ -1040,7 +1046,10 @@ impl Hooks for Engine {
         if me == usize::MAX {
             return;
         }
-        let st = Engine::lock(self);
+        let mut st = Engine::lock(self);
+        if st.branching && st.accesses.len() < 200_000 {
+            st.accesses.push(Access { addr: cv, tid: me as u8, write: true, site: 0x10c1 });
+        }
         self.resched(st, me);
         let mut st = Engine::lock(self);
         let mut ws: Vec<(u64, usize)> = vec![];
@@ -1107,7 +1116,7 @@ impl Hooks for Engine {
         }
         unsafe {
             let sh = &mut *self.shared;
-            let txt = format!("{}@t{} ", s, me);
+            let txt = if arg != 0 { format!("{}@t{}({:x}) ", s, me, arg) } else { format!("{}@t{} ", s, me) };
             let b = txt.as_bytes();
             let n = sh.ring_len as usize;
             if n + b.len() <= RING_CAP {
